@@ -121,6 +121,7 @@ func runC01(c *core.Ctx) {
 	}
 	c01CustomCompiler(c)
 	c01RequestModeDefaults(c, &idx)
+	c01Recursive(c, &idx)
 	if c.Shard == 0 {
 		c.CoverN("workload", "systematic_schemas", len(schemas))
 	}
